@@ -401,9 +401,11 @@ func handleReport(ctx *RunCtx, e Entry, rep *engine.Report) {
 		if detail != "" {
 			vo.Detail = detail
 		}
-		if !ok && e.Replay == "race" && strings.HasPrefix(v.Label, "conc/") {
-			// outcome of the scheduler exploration (happens-before race, non-linearizable result): the
-			// interleaving is a counterexample by itself, whether or not the native run hits it
+		if !ok && e.Replay == "race" && !strings.HasPrefix(v.Label, "mem/") {
+			// outcome of the scheduler exploration (happens-before race, non-linearizable result, a
+			// schedule on which a call never returns): the interleaving is a counterexample by
+			// itself, whether or not the native run hits it; only the lock-discipline conditions
+			// (labels mem/…) need confirmation
 			vo.Reproduced = true
 			vo.Detail = "scheduler counterexample (the native -race run did not exhibit it): " + v.Detail
 		} else if !ok && e.Replay == "race" {
